@@ -55,7 +55,7 @@ OPT_KEYS = ["width", "plaintext", "semantic", "cleanups", "smartquotes", "ellips
 
 def gen_opts(rng: random.Random) -> dict[str, Any]:
     return {
-        "width": rng.choice(corpus.WIDTHS + [88, 88]),
+        "width": rng.choice(corpus.WIDTHS + [88, 88]) if rng.random() < 0.85 else rng.choice([rng.randint(2, 300), rng.randint(2, 100), -rng.randint(1, 50), 1000, 100000]),
         "plaintext": rng.random() < 0.12,
         "semantic": rng.random() < 0.5,
         "cleanups": rng.random() < 0.5,
@@ -97,10 +97,15 @@ def opts_argv(rng: random.Random, o: dict[str, Any], auto: bool = False) -> list
     # (argparse keeps a repeated option's values together only if the pair is not split, so
     # shuffle whole items)
     rng.shuffle(items)
-    return [x for it in items for x in it]
+    out = [x for it in items for x in it]
+    if rng.random() < 0.06:
+        # argparse accepts unambiguous prefixes of long options
+        abbr = {"--semantic": "--sem", "--cleanups": "--clean", "--smartquotes": "--smart", "--ellipses": "--ell", "--plaintext": "--plain", "--width": "--wid", "--list-spacing": "--list-sp"}
+        out = [abbr.get(x, x) for x in out]
+    return out
 
 
-DOC_NAMES = ["a.md", "b.md", "notes.md", "README.md", "docs/c.md", "docs/guide.md", "docs/sub/d.md"]
+DOC_NAMES = ["a.md", "b.md", "notes.md", "README.md", "docs/c.md", "docs/guide.md", "docs/sub/d.md", "x y.md", "\u00fc.md", "docs/\u65e5\u672c.md"]
 
 
 def gen_doc_bytes(rng: random.Random) -> bytes:
@@ -109,7 +114,11 @@ def gen_doc_bytes(rng: random.Random) -> bytes:
         return b""
     if r < 0.10:
         return b"caf\xe9 latin-1, not utf-8\n"
+    if r < 0.13:
+        return corpus.gen_big_doc(rng, rng.choice([70, 130])).encode("utf-8")  # > 64 KiB: several pipe/buffer fills
     body = corpus.gen_doc(rng, rng.randint(1, 5))
+    if rng.random() < 0.04:
+        body = "\ufeff" + body  # UTF-8 BOM
     if rng.random() < 0.6:
         body = body.rstrip("\n") + "\n\n" + corpus.DISCRIMINATING_DOC
     if rng.random() < 0.12:
@@ -143,8 +152,16 @@ def gen_invocation(rng: random.Random, files_now: list[str], forced: tuple[str, 
     if stdin_doc[:3] == b"caf":
         stdin_doc = corpus.DISCRIMINATING_DOC.encode()
 
+    max_size = rng.choice([10, 200, 2000, 100000]) if rng.random() < 0.12 else None
+    if max_size is not None:
+        inv["max_size"] = max_size
+
     def place(flags: list[str], args: list[str], auto: bool = False) -> list[str]:
         oa = opts_argv(rng, o, auto)
+        if max_size is not None and form not in ("err_noinput", "err_auto_noargs", "err_listfiles_noargs"):
+            # only the file resolver looks at the size limit: explicit files that are passed
+            # through (no directory or glob among the arguments) are not subject to it
+            flags = flags + ["--files-max-size", str(max_size)]
         parts = [flags, oa, args]
         if rng.random() < 0.5:
             parts = [oa, flags, args]
@@ -541,6 +558,8 @@ def predict(model: Model, inv: dict[str, Any], M: dict[str, bytes]) -> Pred:
                 p.exit = "nonzero"  # resolver: path not found -> FileNotFoundError before anything is formatted
                 p.stdout = None
                 return p
+        if inv.get("max_size"):
+            found = {f for f in found if len(M[f]) <= inv["max_size"]}
         files = sorted(found, key=path_key)
         do_files(files, o, "stdout" if sub == "stdout" else "inplace", sub in ("inplace_nobackup", "auto"))
     elif form == "api_file":
